@@ -701,12 +701,8 @@ reprocess:
 			break;
 			}
 		case '%':
-			if (location + 1 > max_len) {
-				return max_len;
-			}
-			serialize[location++] = '%';
-                        sformat_length = 0;
-                        sformat_precision = QB_FALSE;
+			/* "%%" takes no argument: nothing to store, skip it */
+			format++;
 			break;
 
 		}
@@ -927,6 +923,7 @@ reprocess:
 			}
 		case '%':
 			string[location++] = '%';
+			string[location] = '\0';
 			format++;
 			break;
 
